@@ -2,6 +2,7 @@ package props
 
 import (
 	"verif/sim/rt"
+	"verif/sim/simkv"
 	"verif/sim/world"
 )
 
@@ -36,7 +37,14 @@ func init() {
 			if idx%4 == 3 {
 				o.faults = "err"
 			}
-			return genWrites(r, tier, idx, o)
+			sc := genWrites(r, tier, idx, o)
+			if idx%4 == 2 {
+				// every placement of one storage fault over the first 8 data commits x 3 kinds
+				k, kind := (idx/4)%8+1, []string{"err", "uncertain-applied", "uncertain-lost"}[(idx/32)%3]
+				sc.Class = "writers+one-fault-at-commit-k"
+				sc.Plan = append(sc.Plan, &simkv.Fault{Op: "commit", Class: "data", Nth: k, Effect: kind})
+			}
+			return sc
 		},
 		Setup:    func(c *Ctx) { c.W.SampleCommitted = true },
 		Epilogue: writesEpilogue,
